@@ -25,6 +25,10 @@ Inductive case :=
 | CaseLab (mode max_out max_int : N) (fam p1 p2 : N) (qmin edns resolvable : bool)
           (packets led_out led_int nq first : N) (rcode ede : N)
           (packets2 rcode2 ede2 : N)
+  (* dnssec.VerifyRRSIGWithWork under the real work adapter: RRsets -> signatures (candidates, genuine index)
+     in processing order; verdict 0 verified / 1 work error of [ekind] / 2 ordinary failure *)
+| CaseSig (mode K Rl St : N) (sets : list (list (nat * option nat)))
+          (verdict ekind ops exh first bound : N)
   (* same topology resolved with the firewall off and in shadow mode: canonical replies *)
 | CaseLabEq (fam p1 p2 : N) (qmin : bool) (reply_off reply_shadow : list N) (packets_off packets_shadow : N).
 
@@ -99,7 +103,21 @@ Definition check_case (c : case) : bool :=
         (negb edns || (ede =? 1 + (if go_RecursionWorkKind_isDNSSEC (first - 1) then 9 else ede_other)))))
   | CaseLabEq fam p1 p2 qmin reply_off reply_shadow packets_off packets_shadow =>
       list_eqb N.eqb reply_off reply_shadow
+  | CaseSig mode K Rl St sets verdict ekind ops exh first bound =>
+      let pol := mk_T_RecursionWorkPolicy mode 128 32 K Rl St 32 32 32 in
+      let '(l, r) := verify_rrsets (new_ledger pol) sets in
+      (match r with
+       | SVerified => (verdict =? 0)
+       | SWork (RLimit k _) => (verdict =? 1) && (ekind =? k)
+       | SWork _ => false
+       | SFailed => (verdict =? 2)
+       end) &&
+      (l_sig l =? ops) && (N.land (l_exh l) 28 =? exh) &&
+      (match enforcement_error l with RLimit k _ => first =? k + 1 | _ => first =? 0 end)
   end.
+
+Definition sig_shape_bound (K Rl : N) (sets : list (list (nat * option nat))) : N :=
+  fold_right (fun sigs a => N.min Rl (fold_right (fun s b => N.min K (N.of_nat (fst s)) + b) 0 sigs) + a) 0 sets.
 
 (* --- specification oracles (no model functions below this line except Gen constants) --- *)
 
@@ -161,4 +179,8 @@ Definition spec_case (c : case) : bool :=
           (negb resolvable || negb (ede2 =? 1 + 13))))))
   | CaseLabEq fam p1 p2 qmin reply_off reply_shadow packets_off packets_shadow =>
       list_eqb N.eqb reply_off reply_shadow
+  | CaseSig mode K Rl St sets verdict ekind ops exh first bound =>
+      (* enforce: public-key operations stay within the tree budget and within what the per-RRset
+         and per-signature allowances admit for this shape; shadow never stops on a budget *)
+      if mode =? 2 then (ops <=? St) && (ops <=? sig_shape_bound K Rl sets) else negb (verdict =? 1)
   end.
